@@ -969,6 +969,16 @@ func (r *PipelineRunner) cancelJobInternal(id uuid.UUID) error {
 	if job.Start == nil {
 		job.markAsCanceled()
 
+		// A canceled job must not occupy a slot on the wait list or block the jobs behind it with a pending start timer
+		if job.startTimer != nil {
+			job.startTimer.Stop()
+			job.startTimer = nil
+		}
+		if r.removeJobFromWaitList(job) {
+			// The head of the wait list could have changed, so there might be another job that can be started
+			r.startJobsOnWaitList(job.Pipeline)
+		}
+
 		log.
 			WithField("component", "runner").
 			WithField("pipeline", job.Pipeline).
@@ -1004,6 +1014,21 @@ func (r *PipelineRunner) cancelJobInternal(id uuid.UUID) error {
 	})()
 
 	return nil
+}
+
+// removeJobFromWaitList removes a job from the wait list of its pipeline (keeping the order of the other jobs)
+func (r *PipelineRunner) removeJobFromWaitList(job *PipelineJob) bool {
+	waitList := r.waitListByPipeline[job.Pipeline]
+	for i, queuedJob := range waitList {
+		if queuedJob == job {
+			newWaitList := make([]*PipelineJob, 0, len(waitList)-1)
+			newWaitList = append(newWaitList, waitList[:i]...)
+			newWaitList = append(newWaitList, waitList[i+1:]...)
+			r.waitListByPipeline[job.Pipeline] = newWaitList
+			return true
+		}
+	}
+	return false
 }
 
 func (r *PipelineRunner) StartDelayedJob(id uuid.UUID) {
